@@ -35,9 +35,69 @@ type solverStats struct {
 
 var stats = &solverStats{Count: map[string]int{}, CPUms: map[string]int64{}}
 
+// pcSubset: are all conjuncts of the guard of assumption a among the conjuncts of pc?
+func guardWithin(a *Term, pcs map[*Term]bool) bool {
+	if a.Op != OpImp {
+		return true
+	}
+	for _, c := range conj(a.Args[0]) {
+		if !pcs[c] {
+			return false
+		}
+	}
+	return true
+}
+
+// obligScriptSliced keeps only the assumptions whose path condition is (syntactically) part of
+// the obligation's path condition. Dropping assumptions is sound for proving; if the sliced
+// query is not proved the full one is tried.
+func obligScriptSliced(u *Unit, o *Oblig) (string, bool) {
+	pcs := map[*Term]bool{}
+	for _, c := range conj(o.PC) {
+		pcs[c] = true
+	}
+	s := newScript("ALL")
+	dropped := 0
+	for _, a := range u.Assumes[:o.NAssume] {
+		if guardWithin(a, pcs) {
+			s.Assert(a)
+		} else {
+			dropped++
+		}
+	}
+	if dropped == 0 {
+		return "", false
+	}
+	s.Assert(mkNot(mkImp(o.PC, o.Goal)))
+	s.Raw("(check-sat)")
+	return s.String(), true
+}
+
+// guardContradicts: the guard of assumption a contains a conjunct whose negation is a
+// conjunct of the obligation's path condition: the assumption is vacuous on this path and
+// can be dropped without losing anything.
+func guardContradicts(a *Term, pcs map[*Term]bool) bool {
+	if a.Op != OpImp {
+		return false
+	}
+	for _, c := range conj(a.Args[0]) {
+		if pcs[mkNot(c)] {
+			return true
+		}
+	}
+	return false
+}
+
 func obligScript(u *Unit, o *Oblig) string {
 	s := newScript("ALL")
+	pcs := map[*Term]bool{}
+	for _, c := range conj(o.PC) {
+		pcs[c] = true
+	}
 	for _, a := range u.Assumes[:o.NAssume] {
+		if guardContradicts(a, pcs) {
+			continue
+		}
 		s.Assert(a)
 	}
 	if o.Cover {
@@ -58,6 +118,9 @@ var solvers = []solverDef{
 	{"z3-new", func(ms int) []string { return []string{"z3-new", "-in", "-smt2", fmt.Sprintf("-t:%d", ms)} }},
 	{"cvc5", func(ms int) []string { return []string{"cvc5", "--lang=smt2", fmt.Sprintf("--tlimit=%d", ms), "-"} }},
 	{"z3", func(ms int) []string { return []string{"z3", "-in", "-smt2", fmt.Sprintf("-t:%d", ms)} }},
+	{"z3-new/noauto", func(ms int) []string {
+		return []string{"z3-new", "-in", "-smt2", fmt.Sprintf("-t:%d", ms), "smt.auto_config=false"}
+	}},
 }
 
 func runSolver(ctx context.Context, sd solverDef, script string, ms int, cfg *SolverCfg, wantModel bool) (res string, out string, dur time.Duration) {
@@ -145,6 +208,19 @@ func discharge(u *Unit, o *Oblig, script string, cfg *SolverCfg) {
 		}
 		return
 	}
+	// stage 0: sliced query (assumptions on this obligation's path only)
+	if sl, ok := obligScriptSliced(u, o); ok {
+		r, _, _ := runSolver(ctx, solvers[0], sl, 400, cfg, false)
+		if r == "unsat" {
+			o.Result, o.Solver = "unsat", "z3-new/sliced"
+		}
+		if o.Result == "unsat" {
+			if cfg.Confirm {
+				confirm(o, sl, cfg)
+			}
+			return
+		}
+	}
 	// stage 1: fast path
 	res, out, _ := runSolver(ctx, solvers[0], script, cfg.QuickMs, cfg, false)
 	if res == "unsat" {
@@ -214,7 +290,7 @@ func discharge(u *Unit, o *Oblig, script string, cfg *SolverCfg) {
 // confirm (thorough tier): a second, different solver must not contradict.
 func confirm(o *Oblig, script string, cfg *SolverCfg) {
 	for _, sd := range solvers {
-		if sd.name == o.Solver {
+		if strings.HasPrefix(o.Solver, sd.name) || strings.HasPrefix(sd.name, strings.SplitN(o.Solver, "/", 2)[0]) {
 			continue
 		}
 		r, _, _ := runSolver(context.Background(), sd, script, cfg.FullMs, cfg, false)
